@@ -375,17 +375,28 @@ def rule_D4(ctx):
     f = bf[0]
     body = deep.body(f)
     patched = False
-    for n in walk(f["hir"]):
+    # the patch may sit in a private helper build() calls (two hops)
+    patch_fns = [f]
+    for hop in range(2):
+        for g0 in list(patch_fns):
+            for d_, _n in hirq.calls_in(g0["hir"]):
+                g = F.fns.get(d_)
+                if g is not None and g in fns and g not in patch_fns and not (g.get("name") or "").startswith("handle_"):
+                    patch_fns.append(g)
+    for pf in patch_fns:
+      body = deep.body(pf)
+      for n in walk(pf["hir"]):
         if n.get("k") == "Assign":
-            l = peel(n["l"])
-            # *item = jump_index  where item comes from get_from_jump_table_mut
-            lo = body.origins(n["l"]) if l.get("k") != "Unary" else body.origins(l["e"])
-            if any(last(callee(o) or "") == "get_from_jump_table_mut" for o in lo):
-                kinds = set(_classify(o) for o in body.origins(n["r"]))
-                r.examine((f["path"], "patch", loc(n)), True, {"where": loc(n), "patched_with": sorted(kinds)})
-                patched = True
-                if kinds != {"instruction_len"}:
-                    r.finding(f["path"], "patch-origin", loc(n), "a jump-table placeholder is patched with %s; it must be get_instruction_len() at the time the root is emitted" % sorted(kinds))
+              l = peel(n["l"])
+              # *item = jump_index  where item comes from get_from_jump_table_mut
+              lo = body.origins(n["l"]) if l.get("k") != "Unary" else body.origins(l["e"])
+              if any(last(callee(o) or "") == "get_from_jump_table_mut" for o in lo):
+                  kinds = set(_classify(o) for o in body.origins(n["r"]))
+                  r.examine((pf["path"], "patch", loc(n)), True, {"where": loc(n), "patched_with": sorted(kinds)})
+                  patched = True
+                  if kinds != {"instruction_len"}:
+                      r.finding(pf["path"], "patch-origin", loc(n), "a jump-table placeholder is patched with %s; it must be get_instruction_len() at the time the root is emitted" % sorted(kinds))
+    body = deep.body(f)
     if not patched:
         r.finding(f["path"], "patch-missing", "-", "build() never stores through get_from_jump_table_mut: placeholders are never patched")
     # entry index: the jump_index of the returned BuildData
@@ -634,11 +645,30 @@ def _emitting_fns(F):
     return em
 
 
+def _registering_fns(F, emitters):
+    """builder functions that register a jump-table entry and never emit: calling one is a registration"""
+    fns = {f["path"]: f for f in builder_fns(F)}
+    out = set()
+    for p, f in fns.items():
+        if p in emitters:
+            continue
+        for b in f["mir"]["blocks"]:
+            t = b["term"]
+            if t["k"] == "Call" and last(t.get("def") or "") in ("push_to_jump_table", "get_from_jump_table_mut") and "GarnishData" in (t.get("def") or ""):
+                out.add(p)
+    return out
+
+
 def entry_order_witness(F, f, emitters):
     mir = f["mir"]
+    registrars = _registering_fns(F, emitters)
     def is_reg(bi, b):
         t = b["term"]
-        return t["k"] == "Call" and last(t.get("def") or "") in ("push_to_jump_table", "get_from_jump_table_mut") and "GarnishData" in (t.get("def") or "")
+        if t["k"] != "Call":
+            return False
+        if (t.get("resolved") or t.get("def") or "") in registrars:
+            return True
+        return last(t.get("def") or "") in ("push_to_jump_table", "get_from_jump_table_mut") and "GarnishData" in (t.get("def") or "")
     def is_emit(bi, b):
         t = b["term"]
         if t["k"] != "Call":
@@ -820,6 +850,16 @@ def rule_T12(ctx):
     if nested_range is None:
         r.anchor_missing("NestedExpression arm", "not found in handle_parse_node")
         return r
+    # builder functions called from inside that arm (the arm's work extracted into a helper) are the same context
+    nested_helpers = set()
+    if ms:
+        f0, m, _n = ms[0]
+        for alts, _g, arm in arm_table(m):
+            if any(a[0] == "V" and last(a[1]) == "NestedExpression" for a in alts):
+                for d_, _c in hirq.calls_in(arm["body"]):
+                    g = F.fns.get(d_)
+                    if g is not None and g in fns and "BuildNode" not in d_:
+                        nested_helpers.add(g["path"])
     n_sites = 0
     for f in sorted(fns, key=lambda f: f["path"]):
         body = Body(f)
@@ -842,7 +882,7 @@ def rule_T12(ctx):
                 else:
                     kinds.add(_classify(o))
             file, line = n["sp"].split(":")[0], int(n["sp"].split(":")[1])
-            in_nested = file == nested_range[0] and nested_range[1] <= line <= nested_range[2]
+            in_nested = (file == nested_range[0] and nested_range[1] <= line <= nested_range[2]) or f["path"] in nested_helpers
             in_build = f.get("name") == "build" and f.get("vis") == "Public"
             r.examine((f["path"], loc(n)), True, {"fn": last(f["path"]), "where": loc(n), "containing_expression_jump_from": sorted(kinds), "starts_new_expression": in_nested or in_build})
             if in_nested or in_build:
